@@ -39,6 +39,23 @@ fn main() {
                 }
             }
         }
+        Some("explain") => {
+            let path = args.get(2).unwrap_or_else(|| usage());
+            let v: serde_json::Value = serde_json::from_str(&std::fs::read_to_string(path).unwrap()).unwrap();
+            let case = v["replay"]["case"].clone();
+            if let Ok(c) = serde_json::from_value::<qv::crash::CrashCase>(case.clone()) {
+                println!("{}", qv::crash::explain(&c));
+            } else if let Ok(c) = serde_json::from_value::<qv::case::SeqCase>(case) {
+                println!("{}", qv::crash::explain(&qv::crash::CrashCase { seq: c, crash: vec![] }));
+            }
+        }
+        Some("crashdump") => {
+            let path = args.get(2).unwrap_or_else(|| usage());
+            let ev: u64 = args.get(3).and_then(|s| s.parse().ok()).unwrap_or(0);
+            let v: serde_json::Value = serde_json::from_str(&std::fs::read_to_string(path).unwrap()).unwrap();
+            let c: qv::crash::CrashCase = serde_json::from_value(v["replay"]["case"].clone()).unwrap();
+            println!("{}", qv::crash::crashdump(&c, ev));
+        }
         Some("list") => {
             for p in &props {
                 println!("{}", p.id());
